@@ -269,6 +269,9 @@ pub struct PCfg {
     pub proj_in_cond: bool,
     /// lambdas may capture variables that were bound by a tuple/record pattern
     pub capture_destructured: bool,
+    /// a lambda may read a captured variable inside an `if` arm (known finding: the VM caches
+    /// the upvalue load of the first arm and reads an uninitialised register in the other)
+    pub capture_in_branch: bool,
 }
 
 impl Default for PCfg {
@@ -302,6 +305,7 @@ impl Default for PCfg {
             block_operands: true,
             proj_in_cond: true,
             capture_destructured: true,
+            capture_in_branch: true,
         }
     }
 }
@@ -324,6 +328,8 @@ struct VarInfo {
     assignable: bool,
     /// bound by a tuple / record pattern
     destructured: bool,
+    /// captured from an enclosing frame (inside a lambda)
+    captured: bool,
 }
 
 struct Scope {
@@ -403,8 +409,11 @@ impl<'a> PG<'a> {
     }
 
     // ------------------------------------------------------------ expressions
+    fn visible(&self, sc: &Scope, v: &VarInfo) -> bool {
+        self.cfg.capture_in_branch || !(v.captured && sc.in_branch)
+    }
     fn vars_of<'s>(&self, sc: &'s Scope, ty: &Ty) -> Vec<VarInfo> {
-        sc.vars.iter().chain(self.globals.iter()).filter(|v| &v.ty == ty).cloned().collect()
+        sc.vars.iter().filter(|v| self.visible(sc, v)).chain(self.globals.iter()).filter(|v| &v.ty == ty).cloned().collect()
     }
 
     fn cond(&mut self, sc: &mut Scope) -> E {
@@ -492,9 +501,9 @@ impl<'a> PG<'a> {
         // inside a lambda no function that takes a function is called: nesting such calls makes the
         // running time exponential in the nesting depth
         let callees: Vec<FnSig> = self.fns.iter().filter(|f| f.ret == Ty::Num && !f.maker && (sc.allow_state || !f.stateful) && (self.cfg.state_in_branches || !sc.in_branch || !f.stateful) && !(sc.in_lambda && f.params.iter().any(|p| matches!(p, Ty::Fun(..))))).cloned().collect();
-        let tup_vars: Vec<VarInfo> = sc.vars.iter().chain(self.globals.iter()).filter(|v| matches!(&v.ty, Ty::Tup(ts) if ts.iter().all(|t| *t == Ty::Num))).cloned().collect();
-        let rec_vars: Vec<VarInfo> = sc.vars.iter().chain(self.globals.iter()).filter(|v| matches!(&v.ty, Ty::Rec(_))).cloned().collect();
-        let clo_vars: Vec<VarInfo> = sc.vars.iter().chain(self.globals.iter()).filter(|v| matches!(&v.ty, Ty::Fun(_, r) if **r == Ty::Num)).cloned().collect();
+        let tup_vars: Vec<VarInfo> = sc.vars.iter().filter(|v| self.visible(sc, v)).chain(self.globals.iter()).filter(|v| matches!(&v.ty, Ty::Tup(ts) if ts.iter().all(|t| *t == Ty::Num))).cloned().collect();
+        let rec_vars: Vec<VarInfo> = sc.vars.iter().filter(|v| self.visible(sc, v)).chain(self.globals.iter()).filter(|v| matches!(&v.ty, Ty::Rec(_))).cloned().collect();
+        let clo_vars: Vec<VarInfo> = sc.vars.iter().filter(|v| self.visible(sc, v)).chain(self.globals.iter()).filter(|v| matches!(&v.ty, Ty::Fun(_, r) if **r == Ty::Num)).cloned().collect();
         let state_ok = self.cfg.state && sc.allow_state && (self.cfg.state_in_branches || !sc.in_branch);
         let delay_ok = state_ok && self.cfg.delays && (self.cfg.multi_delay_per_fn || !sc.fn_has_delay);
         let tuple_self = matches!(&sc.self_ty, Some(Ty::Tup(_)));
@@ -617,8 +626,8 @@ impl<'a> PG<'a> {
                 self.feat.hof_calls += 1;
                 let x = self.num(sc);
                 let pname = self.fresh("arg");
-                let mut inner = Scope { vars: sc.vars.iter().filter(|v| self.cfg.capture_destructured || !v.destructured).map(|v| VarInfo { assignable: false, ..v.clone() }).collect(), self_ty: None, allow_state: false, in_branch: sc.in_branch, fn_has_delay: false, allow_assign: false, allow_closure: false, in_lambda: true, depth_stateful: 0, in_tuple_lit: false, in_operand: false, in_cond: false };
-                inner.vars.push(VarInfo { name: pname.clone(), ty: Ty::Num, assignable: false, destructured: false });
+                let mut inner = Scope { vars: sc.vars.iter().filter(|v| self.cfg.capture_destructured || !v.destructured).map(|v| VarInfo { assignable: false, captured: true, ..v.clone() }).collect(), self_ty: None, allow_state: false, in_branch: false, fn_has_delay: false, allow_assign: false, allow_closure: false, in_lambda: true, depth_stateful: 0, in_tuple_lit: false, in_operand: false, in_cond: false };
+                inner.vars.push(VarInfo { name: pname.clone(), ty: Ty::Num, assignable: false, destructured: false, captured: false });
                 let body = self.num(&mut inner);
                 let id = self.id();
                 E::Pipe(id, Box::new(x), Box::new(E::Lam(vec![Param { name: pname, ty: Ty::Num, annotate: false }], Box::new(body))))
@@ -684,7 +693,7 @@ impl<'a> PG<'a> {
             Ty::Rec(fs) if self.g.bool(1, 3) => Pat::Rec(fs.clone().iter().map(|(n, t)| (n.clone(), self.pattern_for_inner(t, sc, assignable))).collect()),
             _ => {
                 let name = self.fresh("");
-                sc.vars.push(VarInfo { name: name.clone(), ty: ty.clone(), assignable, destructured: false });
+                sc.vars.push(VarInfo { name: name.clone(), ty: ty.clone(), assignable, destructured: false, captured: false });
                 Pat::Var(name)
             }
         }
@@ -804,11 +813,11 @@ impl<'a> PG<'a> {
     }
 
     fn lambda(&mut self, ps: &[Ty], r: &Ty, sc: &mut Scope) -> E {
-        let mut inner = Scope { vars: sc.vars.iter().filter(|v| self.cfg.capture_destructured || !v.destructured).map(|v| VarInfo { assignable: false, ..v.clone() }).collect(), self_ty: None, allow_state: false, in_branch: sc.in_branch, fn_has_delay: false, allow_assign: false, allow_closure: false, in_lambda: true, depth_stateful: 0, in_tuple_lit: false, in_operand: false, in_cond: false };
+        let mut inner = Scope { vars: sc.vars.iter().filter(|v| self.cfg.capture_destructured || !v.destructured).map(|v| VarInfo { assignable: false, captured: true, ..v.clone() }).collect(), self_ty: None, allow_state: false, in_branch: false, fn_has_delay: false, allow_assign: false, allow_closure: false, in_lambda: true, depth_stateful: 0, in_tuple_lit: false, in_operand: false, in_cond: false };
         let mut params = vec![];
         for p in ps {
             let n = self.fresh("x");
-            inner.vars.push(VarInfo { name: n.clone(), ty: p.clone(), assignable: false, destructured: false });
+            inner.vars.push(VarInfo { name: n.clone(), ty: p.clone(), assignable: false, destructured: false, captured: false });
             params.push(Param { name: n, ty: p.clone(), annotate: !matches!(p, Ty::Num) || self.g.bool(1, 4) });
         }
         let body = self.expr(r, &mut inner);
@@ -838,7 +847,7 @@ impl<'a> PG<'a> {
         let before = self.feat.clone();
         let use_assign = self.cfg.assigns && self.g.bool(1, 3);
         let mut sc = Scope {
-            vars: params.iter().map(|(n, t)| VarInfo { name: n.clone(), ty: t.clone(), assignable: false, destructured: false }).collect(),
+            vars: params.iter().map(|(n, t)| VarInfo { name: n.clone(), ty: t.clone(), assignable: false, destructured: false, captured: false }).collect(),
             self_ty: if allow_state && self.cfg.state && ret.is_flat_num() && !matches!(ret, Ty::Rec(_)) && self.g.bool(3, 5) { Some(ret.clone()) } else { None },
             allow_state,
             in_branch: false,
@@ -869,9 +878,9 @@ impl<'a> PG<'a> {
         let r = self.fresh("res");
         let arg = self.fresh("inc");
         let with_arg = self.g.coin();
-        let mut sc = Scope { vars: vec![VarInfo { name: x.clone(), ty: Ty::Num, assignable: false, destructured: false }, VarInfo { name: p.clone(), ty: Ty::Num, assignable: false, destructured: false }], self_ty: None, allow_state: false, in_branch: false, fn_has_delay: false, allow_assign: false, allow_closure: false, in_lambda: true, depth_stateful: 0, in_tuple_lit: false, in_operand: false, in_cond: false };
+        let mut sc = Scope { vars: vec![VarInfo { name: x.clone(), ty: Ty::Num, assignable: false, destructured: false, captured: false }, VarInfo { name: p.clone(), ty: Ty::Num, assignable: false, destructured: false, captured: false }], self_ty: None, allow_state: false, in_branch: false, fn_has_delay: false, allow_assign: false, allow_closure: false, in_lambda: true, depth_stateful: 0, in_tuple_lit: false, in_operand: false, in_cond: false };
         if with_arg {
-            sc.vars.push(VarInfo { name: arg.clone(), ty: Ty::Num, assignable: false, destructured: false });
+            sc.vars.push(VarInfo { name: arg.clone(), ty: Ty::Num, assignable: false, destructured: false, captured: false });
         }
         let saved = self.fuel;
         self.fuel = self.fuel.min(6);
@@ -915,7 +924,7 @@ impl<'a> PG<'a> {
                         let init = self.lit();
                         let id = self.id();
                         tops.push(Top::Let(gname.clone(), sig.ret.clone(), E::Call(id, Box::new(E::Var(sig.name.clone())), vec![init])));
-                        self.globals.push(VarInfo { name: gname, ty: sig.ret.clone(), assignable: false, destructured: false });
+                        self.globals.push(VarInfo { name: gname, ty: sig.ret.clone(), assignable: false, destructured: false, captured: false });
                         self.feat.closures_global += 1;
                     }
                     self.fns.push(sig);
@@ -930,7 +939,7 @@ impl<'a> PG<'a> {
                     let e = self.expr(&t, &mut sc);
                     self.fuel = saved;
                     tops.push(Top::Let(gname.clone(), t.clone(), e));
-                    self.globals.push(VarInfo { name: gname, ty: t, assignable: false, destructured: false });
+                    self.globals.push(VarInfo { name: gname, ty: t, assignable: false, destructured: false, captured: false });
                     self.feat.globals += 1;
                 }
                 _ => {
